@@ -11,6 +11,7 @@ sys.path.insert(0, os.path.join(os.path.dirname(os.path.abspath(__file__)), ".."
 import vf
 import lanes
 import fpgen
+import sweep
 
 UNARY = ["exp", "exp2", "exp10", "expm1", "log", "log2", "log10", "log1p", "sin", "cos", "tan", "asin", "acos", "atan", "sinh", "cosh", "tanh",
          "asinh", "acosh", "atanh", "cbrt", "erf", "erfc", "tgamma", "lgamma", "sqrt"]
@@ -214,6 +215,31 @@ def run(ctx, prop, t, bits, nb):
                     chunk.append(seq[(i + len(chunk)) % len(seq)])
                 plan.append("m1 %s %s 0 %s - - -" % (fn, t, vf.hexrow(vf.pack_lanes(chunk, nb))))
                 meta.append((fn, [(fn, c) for c in chunk]))
+    if not ctx.replay and not os.environ.get("VERIF_NO_SWEEP"):
+        # selector sweep (lib/sweep.py): float32 - every stride-th bit pattern of the whole format; float64 - a seeded sample of rows of
+        # neighbouring doubles over the function's domain; ranked against libm in the next wider format, the worst row of every binade
+        # is appended to the plan (in the very row composition in which it was observed) and judged by TLC like every other row
+        archs = ctx.q(["sse2", "sse4_1", "fma3<avx2>", "avx512f"], ["sse2", "sse4_1", "avx2", "fma3<avx2>", "avx512f", "avx512bw"])
+        stride = int(os.environ.get("VERIF_SWEEP_STRIDE", "0")) or ctx.q(128, 4)
+        nrows = int(os.environ.get("VERIF_SWEEP_ROWS", "0")) or ctx.q(30000, 1500000)
+        jobs = []
+        for fn in UNARY:
+            fi = 0 if bits == 32 else 1
+            lo, hi = DOMAIN[fn][fi]
+            signs = "+" if DOMAIN[fn][2] == "+" else "+-"
+            mode = "ulp1" if fn == "lgamma" else "ulp"
+            for ai, arch in enumerate(archs):
+                if bits == 32:
+                    jobs.append(sweep.job("m1", fn, t, arch, mode, fn, stride, ctx.seed * 31 + ai * 7 + len(fn), 0x00800000, 0x7F7FFFFF, signs))
+                else:
+                    jobs.append(sweep.job("m1", fn, t, arch, mode, fn, nrows, ctx.seed * 31 + ai, fpgen.f2b(max(lo, 2.3e-308), 64), fpgen.f2b(hi, 64), signs))
+        srows, _info = sweep.run(ctx, "math", jobs, prop.lower() + "sel", keep=ctx.q(12, 300))
+        for r in srows:
+            fn = r["op"]
+            chunk = [r["lanes"][i % len(r["lanes"])] for i in range(L)]
+            plan.append("m1 %s %s 0 %s - - -" % (fn, t, vf.hexrow(vf.pack_lanes(chunk, nb))))
+            meta.append((fn, [(fn, c) for c in chunk]))
+            allpts += [(fn, c) for c in chunk]
     for fn in ([] if ctx.replay else BINARY):
         pts = points_binary(ctx, fn, bits, ctx.q(1200, 150000))
         allpts += [(fn, x, y) for x, y in pts]
